@@ -807,6 +807,68 @@ def translate(repo):
     out.append("Definition chain_class (s : pf) (h : hdr) (ft v : Z) : Z :=\n  "
                + " else ".join(f"if {c} then {a}" for c, a in branches) + f" else {last}.\n")
 
+    # ---- allocate_bytes: the upper bound of the scan (prelude) and the decisions of its loop: which cluster numbers are skipped, which entries
+    # are taken.  Shape: for i in range(first_free_cluster, len(fat)): if <skip>: continue / if <enough>: break / if fat[i] == free: (if <excluded>:
+    # continue)* ; free_clusters += [i]
+    ab = find_fn(pfc, "allocate_bytes")
+    loc.clear()
+    loop = None
+
+    class AllocTr(ChainTr):
+        def expr(self, n):
+            if isinstance(n, ast.Subscript) and isinstance(n.value, ast.Subscript) and isinstance(n.value.value, ast.Attribute) \
+                    and n.value.value.attr == "FAT_CLUSTER_VALUES" and isinstance(n.value.slice, ast.Attribute) and n.value.slice.attr == "fat_type" \
+                    and isinstance(n.slice, ast.Constant) and n.slice.value in keys:
+                return f"({n.slice.value} ft)"
+            return super().expr(n)
+    at = AllocTr(dict(common, methods={"_get_total_sectors": "(get_total_sectors h)", "get_total_sectors": "(get_total_sectors h)"}))
+    for st_ in ab.body:
+        if isinstance(st_, ast.Expr) and isinstance(st_.value, ast.Constant):
+            continue
+        if isinstance(st_, ast.For):
+            loop = st_
+            break
+        if not (isinstance(st_, ast.Assign) and isinstance(st_.targets[0], ast.Name)):
+            raise Unsupported("allocate_bytes prelude statement")
+        name = st_.targets[0].id
+        if name == "num_clusters":
+            if not (isinstance(st_.value, ast.Call) and isinstance(st_.value.func, ast.Attribute) and st_.value.func.attr == "calc_num_clusters"):
+                raise Unsupported("allocate_bytes request size")
+            continue
+        if name == "free_clusters":
+            if not (isinstance(st_.value, ast.List) and not st_.value.elts):
+                raise Unsupported("allocate_bytes result list")
+            continue
+        loc[name] = at.ex(st_.value)
+    rng_ok = loop is not None and isinstance(loop.target, ast.Name) and loop.target.id == "i" and isinstance(loop.iter, ast.Call) \
+        and isinstance(loop.iter.func, ast.Name) and loop.iter.func.id == "range" and len(loop.iter.args) == 2 \
+        and isinstance(loop.iter.args[0], ast.Attribute) and loop.iter.args[0].attr == "first_free_cluster" \
+        and at.ex(loop.iter.args[1]) == "len_fat"
+    if not rng_ok or len(loop.body) != 3:
+        raise Unsupported("allocate_bytes scan loop")
+    l0, l1, l2 = loop.body
+    only = lambda bl, t: len(bl) == 1 and isinstance(bl[0], t)  # noqa
+    if not (isinstance(l0, ast.If) and only(l0.body, ast.Continue) and not l0.orelse):
+        raise Unsupported("allocate_bytes bounds test")
+    if not (isinstance(l1, ast.If) and only(l1.body, ast.Break) and not l1.orelse):
+        raise Unsupported("allocate_bytes enough test")
+    if not (isinstance(l2, ast.If) and not l2.orelse and len(l2.body) >= 1):
+        raise Unsupported("allocate_bytes free test")
+    excl = []
+    for st_ in l2.body[:-1]:
+        if not (isinstance(st_, ast.If) and only(st_.body, ast.Continue) and not st_.orelse):
+            raise Unsupported("allocate_bytes exclusions")
+        excl.append(at.bex(st_.test))
+    lastst = l2.body[-1]
+    if not (isinstance(lastst, ast.AugAssign) and isinstance(lastst.target, ast.Name) and lastst.target.id == "free_clusters" and isinstance(lastst.op, ast.Add)
+            and isinstance(lastst.value, ast.List) and len(lastst.value.elts) == 1 and isinstance(lastst.value.elts[0], ast.Name) and lastst.value.elts[0].id == "i"):
+        raise Unsupported("allocate_bytes take")
+    out.append(f"Definition alloc_max_clus (s : pf) (h : hdr) (ft : Z) : Z :=\n  {loc['max_clus']}.\n")
+    out.append(f"Definition alloc_skip (s : pf) (h : hdr) (ft i : Z) : bool :=\n  {at.bex(l0.test)}.\n")
+    out.append("(* the entry [v = fat[i]] of a cluster number that is not skipped is taken *)\n")
+    out.append(f"Definition alloc_take (s : pf) (h : hdr) (ft v i : Z) : bool :=\n  ({at.bex(l2.test)}"
+               + "".join(f" && negb {e}" for e in excl) + ").\n")
+
     out.append("End Gen.\n")
     return "".join(out)
 
